@@ -1,11 +1,14 @@
 package checks
 
 import (
+	"bufio"
 	"bytes"
 	"encoding/json"
 	"fmt"
+	"io"
 	"os"
 	"path/filepath"
+	"testing/iotest"
 
 	blocks "github.com/ipfs/go-block-format"
 	carv2 "github.com/ipld/go-car/v2"
@@ -226,10 +229,22 @@ func runC11(t *mon.T, raw json.RawMessage) {
 				t.Violatef(name+"/ReadFrom/error", "ReadFrom of the library's own serialization failed: %v", err)
 				continue
 			}
-			if p%2 == 1 { // also through a plain reader
-				back, err = index.ReadFrom(lab.PlainReader{R: bytes.NewReader(buf.Bytes())})
+			if p%2 == 1 { // also through readers that deliver the bytes in other ways
+				kinds := []struct {
+					name string
+					r    io.Reader
+				}{
+					{"plain", lab.PlainReader{R: bytes.NewReader(buf.Bytes())}},
+					{"1-byte reads", lab.OneByteReader{R: bytes.NewReader(buf.Bytes())}},
+					{"stutter", &lab.StutterReader{B: buf.Bytes()}},
+					{"bufio(16)", bufio.NewReaderSize(lab.OneByteReader{R: bytes.NewReader(buf.Bytes())}, 16)},
+					{"data+EOF", iotest.DataErrReader(bytes.NewReader(buf.Bytes()))},
+				}
+				k := kinds[(p/2)%len(kinds)]
+				back, err = index.ReadFrom(k.r)
+				t.Cover("readfrom-source:" + k.name)
 				if err != nil {
-					t.Violatef(name+"/ReadFrom(plain)/error", "ReadFrom(plain reader) failed: %v", err)
+					t.Violatef(name+"/ReadFrom("+k.name+")/error", "ReadFrom(%s reader) of the library's own serialization failed: %v", k.name, err)
 					continue
 				}
 			}
@@ -404,7 +419,7 @@ func init() {
 	Register(&mon.Check{
 		ID:          "C11",
 		Level:       "exploration",
-		Rule:        "cases = (a) seeded record multisets (8 hash codes, digest widths 0..80, a few with more than 64 distinct widths in one table, repeated digests with distinct offsets and under other hash codes, digests differing in a single late byte (shared prefixes), offsets up to 2^63-1) loaded in 8 (quick) / 24 (thorough) permutations into both on-disk codecs: reported byte count, strict reference parse, bucket/entry order, multiset equality, permutation invariance, ReadFrom round trip (seekable and plain reader) with identical GetAll/ForEach and byte-identical re-marshal; (b) writing sessions (1-12 blocks, interrupted by Discard/Finalize and resumed up to twice, plus a few with 17k-75k tiny blocks so that the in-memory index is large when flattened) whose embedded (flattened) index is compared with GenerateIndex over the finished payload",
+		Rule:        "cases = (a) seeded record multisets (8 hash codes, digest widths 0..80, a few with more than 64 distinct widths in one table, repeated digests with distinct offsets and under other hash codes, digests differing in a single late byte (shared prefixes), offsets up to 2^63-1) loaded in 8 (quick) / 24 (thorough) permutations into both on-disk codecs: reported byte count, strict reference parse, bucket/entry order, multiset equality, permutation invariance, ReadFrom round trip (seekable, plain, 1-byte, stutter, small bufio and data+EOF readers) with identical GetAll/ForEach and byte-identical re-marshal; (b) writing sessions (1-12 blocks, interrupted by Discard/Finalize and resumed up to twice, plus a few with 17k-75k tiny blocks so that the in-memory index is large when flattened) whose embedded (flattened) index is compared with GenerateIndex over the finished payload",
 		Assumptions: []string{"reference index parser/builder (refcar)", "order among entries sharing one digest is left open by the format and is canonicalised before comparison"},
 		Gen:         genC11,
 		Run:         runC11,
